@@ -157,3 +157,168 @@ if __name__ == '__main__':
         sys.exit(1)
     print(len(rows), 'rows; chunks:', write_layout_lean(rows))
     print(rows[:3])
+
+
+# --------------------------------------------------------------------------------------------------------------
+# C18: noexcept table
+# --------------------------------------------------------------------------------------------------------------
+NOEXCEPT_HDR = r'''
+#include <gch/small_vector.hpp>
+#include <cstdio>
+#include <iterator>
+#include <memory>
+#include <type_traits>
+#include <utility>
+template <bool MC, bool MA, bool SW>
+struct T3
+{
+  int v;
+  T3 () { }
+  T3 (const T3&) { }
+  T3& operator= (const T3&) { return *this; }
+  T3 (T3&&) noexcept (MC) { }
+  T3& operator= (T3&&) noexcept (MA) { return *this; }
+  friend void swap (T3&, T3&) noexcept (SW) { }
+};
+template <typename T, bool POCMA, bool POCS, bool AE, bool DN>
+struct NA
+{
+  typedef T value_type;
+  typedef std::integral_constant<bool, POCMA> propagate_on_container_move_assignment;
+  typedef std::integral_constant<bool, POCS> propagate_on_container_swap;
+  typedef std::integral_constant<bool, AE> is_always_equal;
+  template <typename U> struct rebind { typedef NA<U, POCMA, POCS, AE, DN> other; };
+  int id;
+  NA () noexcept (DN) : id (0) { }
+  NA (const NA& o) noexcept : id (o.id) { }
+  NA& operator= (const NA& o) noexcept { id = o.id; return *this; }
+  template <typename U> NA (const NA<U, POCMA, POCS, AE, DN>& o) noexcept : id (o.id) { }
+  T *allocate (std::size_t n) { return static_cast<T *> (::operator new (n * sizeof (T))); }
+  void deallocate (T *p, std::size_t) noexcept { ::operator delete (p); }
+};
+template <typename T, typename U, bool POCMA, bool POCS, bool AE, bool DN>
+bool operator== (const NA<T, POCMA, POCS, AE, DN>& a, const NA<U, POCMA, POCS, AE, DN>& b) noexcept { return AE || a.id == b.id; }
+template <typename T, typename U, bool POCMA, bool POCS, bool AE, bool DN>
+bool operator!= (const NA<T, POCMA, POCS, AE, DN>& a, const NA<U, POCMA, POCS, AE, DN>& b) noexcept { return ! (a == b); }
+
+template <typename V> static bool observers_noexcept (void)
+{
+  return noexcept (std::declval<const V&> ().size ()) && noexcept (std::declval<const V&> ().capacity ())
+      && noexcept (std::declval<const V&> ().max_size ()) && noexcept (std::declval<const V&> ().empty ())
+      && noexcept (std::declval<const V&> ().data ()) && noexcept (std::declval<V&> ().data ())
+      && noexcept (std::declval<const V&> ().get_allocator ())
+      && noexcept (std::declval<V&> ().begin ()) && noexcept (std::declval<const V&> ().begin ()) && noexcept (std::declval<const V&> ().cbegin ())
+      && noexcept (std::declval<V&> ().end ()) && noexcept (std::declval<const V&> ().end ()) && noexcept (std::declval<const V&> ().cend ())
+      && noexcept (std::declval<V&> ().rbegin ()) && noexcept (std::declval<const V&> ().crbegin ())
+      && noexcept (std::declval<V&> ().rend ()) && noexcept (std::declval<const V&> ().crend ())
+      && noexcept (std::declval<const V&> ().inlined ()) && noexcept (std::declval<const V&> ().inlinable ()) && noexcept (V::inline_capacity ());
+}
+template <typename V> static bool traits_ok (void)
+{
+  typedef typename V::iterator It; typedef typename V::const_iterator CIt;
+  bool ok = std::is_trivially_copyable<It>::value && std::is_trivially_copyable<CIt>::value
+    && std::is_same<typename std::iterator_traits<It>::iterator_category, std::random_access_iterator_tag>::value
+    && std::is_same<typename std::iterator_traits<CIt>::iterator_category, std::random_access_iterator_tag>::value
+    && std::is_same<typename V::value_type, typename std::iterator_traits<It>::value_type>::value
+    && std::is_same<typename V::reference, typename V::value_type&>::value
+    && std::is_same<typename V::const_reference, const typename V::value_type&>::value
+    && std::is_same<typename V::pointer, typename std::allocator_traits<typename V::allocator_type>::pointer>::value
+    && std::is_same<typename V::const_pointer, typename std::allocator_traits<typename V::allocator_type>::const_pointer>::value
+    && std::is_same<typename V::size_type, typename std::allocator_traits<typename V::allocator_type>::size_type>::value
+    && std::is_same<typename V::difference_type, typename std::allocator_traits<typename V::allocator_type>::difference_type>::value
+    && std::is_same<typename V::reverse_iterator, std::reverse_iterator<It>>::value
+    && std::is_same<typename V::const_reverse_iterator, std::reverse_iterator<CIt>>::value;
+#if defined (__cpp_lib_concepts) && __cplusplus >= 202002L
+  ok = ok && std::contiguous_iterator<It> && std::contiguous_iterator<CIt>;
+#endif
+  return ok;
+}
+
+// one row per (element traits, N, allocator kind): the values of the noexcept expressions in a fixed order
+template <typename T, unsigned N, typename A, unsigned LESS, unsigned GREATER>
+struct Exprs
+{
+  typedef gch::small_vector<T, N, A> V;
+  typedef gch::small_vector<T, GREATER, A> VG;
+  static void print (int mc, int ma, int sw, int isstd, int pocma, int pocs, int ae, int dn)
+  {
+    std::printf ("%d %d %d %u %d %d %d %d %d :", mc, ma, sw, N, isstd, pocma, pocs, ae, dn);
+    std::printf (" %d", (int) noexcept (V ()));
+    std::printf (" %d", (int) noexcept (V (std::declval<V&&> ())));
+    std::printf (" %d", (int) noexcept (V (std::declval<const A&> ())));
+    std::printf (" %d", (int) noexcept (std::declval<V&> () = std::declval<V&&> ()));
+    std::printf (" %d", (int) noexcept (std::declval<V&> ().assign (std::declval<V&&> ())));
+    std::printf (" %d", (int) noexcept (std::declval<V&> ().swap (std::declval<V&> ())));
+    std::printf (" %d", (int) noexcept (swap (std::declval<V&> (), std::declval<V&> ())));
+    std::printf (" %d", (int) noexcept (std::declval<V&> ().clear ()));
+    std::printf (" %d", (int) observers_noexcept<V> ());
+    std::printf (" %d", (int) noexcept (V (std::declval<VG&&> ())));
+    std::printf (" %d", (int) noexcept (std::declval<V&> ().assign (std::declval<VG&&> ())));
+    std::printf (" %d", (int) noexcept (V (std::declval<const V&> ())));
+    less (std::integral_constant<bool, (N > 0)> ());
+    std::printf (" %d\n", (int) traits_ok<V> ());
+  }
+  static void less (std::true_type)
+  {
+    typedef gch::small_vector<T, LESS, A> VL;
+    std::printf (" %d", (int) noexcept (V (std::declval<VL&&> ())));
+    std::printf (" %d", (int) noexcept (std::declval<V&> ().assign (std::declval<VL&&> ())));
+  }
+  static void less (std::false_type) { std::printf (" 2 2"); }
+};
+template <bool MC, bool MA, bool SW, unsigned N>
+static void rows (void)
+{
+  typedef T3<MC, MA, SW> T;
+  Exprs<T, N, std::allocator<T>, (N > 0 ? N - 1 : 0), N + 3>::print (MC, MA, SW, 1, 1, 0, 1, 1);
+  Exprs<T, N, NA<T, false, false, false, true>, (N > 0 ? N - 1 : 0), N + 3>::print (MC, MA, SW, 0, 0, 0, 0, 1);
+  Exprs<T, N, NA<T, true, false, false, true>, (N > 0 ? N - 1 : 0), N + 3>::print (MC, MA, SW, 0, 1, 0, 0, 1);
+  Exprs<T, N, NA<T, false, true, false, true>, (N > 0 ? N - 1 : 0), N + 3>::print (MC, MA, SW, 0, 0, 1, 0, 1);
+  Exprs<T, N, NA<T, false, false, true, true>, (N > 0 ? N - 1 : 0), N + 3>::print (MC, MA, SW, 0, 0, 0, 1, 1);
+  Exprs<T, N, NA<T, true, true, false, false>, (N > 0 ? N - 1 : 0), N + 3>::print (MC, MA, SW, 0, 1, 1, 0, 0);
+}
+int main ()
+{
+'''
+
+NOEXCEPT_EXPRS = ['default_ctor', 'move_ctor', 'alloc_ctor', 'move_assign_op', 'assign_rv', 'swap_member', 'swap_nonmember', 'clear',
+                  'observers', 'ctor_from_greater_rv', 'assign_greater_rv', 'copy_ctor', 'ctor_from_less_rv', 'assign_less_rv', 'traits_ok']
+
+
+def noexcept_table(std='c++17', cxx='g++'):
+    calls = []
+    for mc in ('false', 'true'):
+        for ma in ('false', 'true'):
+            for sw in ('false', 'true'):
+                for n in (0, 2):
+                    calls.append('rows<%s, %s, %s, %d> ();' % (mc, ma, sw, n))
+    lines, err = build_table('noexcept_' + std.replace('+', 'p'), NOEXCEPT_HDR, calls, cxx, std=std, shards=4)
+    if err:
+        return None, err
+    rows = []
+    for l in lines:
+        a, b = l.split(':')
+        rows.append(tuple(int(x) for x in a.split()) + tuple(int(x) for x in b.split()))
+    return rows, None
+
+
+def write_noexcept_lean(rows):
+    out = ['-- GENERATED by tools/tables.py from noexcept(...) expressions evaluated by the compiler on the real header — do not edit',
+           'namespace SvModel.Gen\n',
+           '/-- element traits (nothrow move ctor / move assign / swap), inline capacity, allocator traits, then the measured values',
+           '    of the noexcept expressions (2 = not applicable: no smaller inline capacity exists for N = 0) -/',
+           'structure NxRow where',
+           '  mc : Bool\n  ma : Bool\n  sw : Bool\n  N : Nat\n  isStd : Bool\n  pocma : Bool\n  pocs : Bool\n  ae : Bool\n  dn : Bool',
+           '  vals : List Nat',
+           '  deriving DecidableEq, Repr\n',
+           'def nxExprs : List String := [' + ', '.join('"%s"' % e for e in NOEXCEPT_EXPRS) + ']\n',
+           'def nxTable : List NxRow := [']
+    b = lambda x: 'true' if x else 'false'
+    out.append(',\n'.join('  ⟨%s, %s, %s, %d, %s, %s, %s, %s, %s, [%s]⟩' % (b(r[0]), b(r[1]), b(r[2]), r[3], b(r[4]), b(r[5]), b(r[6]), b(r[7]), b(r[8]),
+                                                                       ', '.join(str(x) for x in r[9:])) for r in rows))
+    out.append(']\n\nend SvModel.Gen\n')
+    path = os.path.join(vlib.LEAN, 'SvModel', 'Gen', 'NoexceptTable.lean')
+    text = '\n'.join(out)
+    if not os.path.exists(path) or open(path).read() != text:
+        with open(path, 'w') as f:
+            f.write(text)
